@@ -1,4 +1,15 @@
-"""Per-property configuration of the /verif driver."""
+"""Per-property configuration of the /verif driver.
+
+Each property's configuration lives in lib/props.d/<ID>.json:
+  pkg        harness package (key of PACKAGES) whose test binary runs the check
+  run        -test.run regexp
+  level      evidence level (exploration | fault_enumeration)
+  technique, level_text, level_note, rule, assumptions   texts for MANIFEST/evidence
+  quick / thorough: {shards, checks (-rapid.checks), steps (-rapid.steps), timeout (s), env {..}}
+"""
+import glob, json, os
+
+HERE = os.path.dirname(os.path.abspath(__file__))
 
 # harness/<sub> -> where it is compiled into /repo's package tree (by overlay)
 PACKAGES = {
@@ -7,40 +18,16 @@ PACKAGES = {
     "jobs": {"dir": "internal/jobs"},
     "dataset": {"dir": "internal/service/dataset"},
     "server": {"dir": "internal/server"},
+    "security": {"dir": "internal/security"},
+    "web": {"dir": "internal/web"},
 }
 
+# properties not claimed, with the reason (none: every property has a check or is under construction)
 NOT_APPLICABLE = {}
+
+# commits in /repo that add verif-tagged hooks
 HOOK_COMMITS = []
 
-PROPS = {
-    "C01": {
-        "pkg": "checks", "run": "^TestVerif_C01$", "level": "exploration",
-        "technique": "stateful property-based testing (rapid state machine) against a reference model",
-        "level_text": "Generated write histories (hundreds of histories x ~20-40 steps per run) compared step by step with an executable reference model through every read path (listing unpaged/paged/HTTP, scoped and merged lookup). Sampling, not proof; small pools make id/length/flag collisions the common case.",
-        "level_note": "Trusts the reference model in harness/kit/model.go as a transcription of the statement; merged lookups are compared as per-key multisets (merge order not asserted).",
-        "rule": "rapid state machine over a hub with datasets a,b,c: batches (store/parser/HTTP, 1-14 entities, ids drawn with replacement from a pool of 5, engineered equal-serialized-length rewrites, delete/un-delete flips, identical rewrites) and multi-dataset transactions (store, contextual store, HTTP); after every step listing (one call, paged, HTTP) and scoped/merged lookups are compared with the reference model. Non-trivial = history contains an overwrite with different content, an in-batch repeat, an un-delete, the same id in >=2 datasets or an equal-length rewrite; distinct by hash of the op list.",
-        "assumptions": ["reference model (harness/kit/model.go) transcribes the statement", "Store.Delete() (wipe) not generated"],
-        "quick": {"shards": 8, "checks": 40, "steps": 20, "timeout": 300},
-        "thorough": {"shards": 16, "checks": 600, "steps": 40, "timeout": 3000},
-    },
-    "C02": {
-        "pkg": "checks", "run": "^TestVerif_C02$", "level": "exploration",
-        "technique": "stateful property-based testing (rapid state machine) against a reference model, with token-carrying reader cursors interleaved with writes",
-        "level_text": "Generated write histories interleaved with four independent token-carrying readers (store API and HTTP, full and latest-only, limits 0-5), reverse paging and since-beyond-end probes; every page is compared with the model feed position by position.",
-        "level_note": "Trusts the reference model; change positions are opaque (only 'resume exactly' is asserted).",
-        "rule": "rapid state machine over datasets a,b: batches/transactions as in C01 interleaved with readerStep(cursor,limit) for 4 cursors, pagedFeed (store and HTTP), reverse paging and since-beyond-end; oracle: feed from zero == model feed (one entry per stored version, identical rewrites add nothing), cursor sequences are prefixes of the model feed and complete after a short page, tokens do not move on empty pages, latest-only pages deliver only current versions and all of them once caught up, reverse == reversed forward. Non-trivial = a page boundary inside a commit, a redundant write, or a cursor with >=3 pages that straddles a write; distinct by op-list hash.",
-        "assumptions": ["reference model transcribes the statement", "reads are issued between writes (no concurrent reader here; see C05)"],
-        "quick": {"shards": 8, "checks": 40, "steps": 25, "timeout": 300},
-        "thorough": {"shards": 16, "checks": 600, "steps": 50, "timeout": 3000},
-    },
-    "C03": {
-        "pkg": "checks", "run": "^TestVerif_C03$", "level": "exploration",
-        "technique": "stateful property-based testing against a reference model plus a metamorphic transpose relation (outgoing vs incoming)",
-        "level_text": "Generated reference-heavy histories; after every step all start x predicate x direction x scope queries are compared with the model, incoming/outgoing answers must be mutual transposes, and paged queries (store continuations and POST /query) must return the same set once.",
-        "level_note": "Trusts the reference model's definition of the relation set (taken from the statement); page sizes are not asserted, only the union over pages.",
-        "rule": "rapid state machine over datasets a,b,c with up to 3 reference keys per entity (single/array values, 3 predicates, 5 ids): after every write a full sweep of 5 starts x (wildcard+3 predicates) x 2 directions x 5 scopes unpaged, transpose check, limit-1/limit-2 paged sweeps (store and HTTP), plus drawn paged queries. Non-trivial = history has >=2 predicates between one pair, an id live in one dataset and deleted in another, or a changed reference set; distinct by op-list hash.",
-        "assumptions": ["reference model transcribes the statement", "queries whose predicate was never stored answer 'could not load predicate id' and are treated as the empty set"],
-        "quick": {"shards": 8, "checks": 30, "steps": 15, "timeout": 300},
-        "thorough": {"shards": 16, "checks": 400, "steps": 30, "timeout": 3000},
-    },
-}
+PROPS = {}
+for f in sorted(glob.glob(os.path.join(HERE, "props.d", "*.json"))):
+    PROPS[os.path.basename(f)[:-5]] = json.load(open(f))
